@@ -35,6 +35,7 @@ Definition site_create_after_underflow : N := 3. (* lint_fix.rs: anchor_slice.en
 Definition site_source_edit_index : N := 4. (* lint_fix.rs: source_edit_slices[0] *)
 Definition site_raw_sliced_last : N := 5.   (* base.rs: raw_sliced.last().unwrap() *)
 Definition site_tsts : N := 6.              (* templated_slice_to_source_slice panicked (C15) *)
+Definition site_anchor_info_unimplemented : N := 7. (* segments.rs AnchorEditInfo::add: unimplemented!() *)
 Definition site_oracle_missing : N := 99.   (* correspondence only: the recorded table lacks the query *)
 
 (** * 1. In-file configuration scan (config.rs 211-224) *)
@@ -186,6 +187,63 @@ Fixpoint any_conflict (legacy wrapping : bool) (tsts : tsts_t) (raw : list raw_s
   | f :: fs' =>
       bind (has_template_conflicts legacy wrapping tsts raw f) (fun b =>
         if b then Val true else any_conflict legacy wrapping tsts raw fs')
+  end.
+
+(** * 2b. [compute_anchor_edit_info] / [AnchorEditInfo::add] (lib-core linter.rs, segments.rs) —
+    run on every fix batch, outside any catch_unwind *)
+Record bfix := { b_type : edit_type; b_anchor : N; b_anchor_raw : str; b_edits : list str }.
+
+Definition edit_type_eqb (a b : edit_type) : bool :=
+  match a, b with
+  | CreateBefore, CreateBefore | CreateAfter, CreateAfter | Replace, Replace | Delete, Delete => true
+  | _, _ => false
+  end.
+
+(** [impl PartialEq for LintFix]: edit type, anchor (type and) id, raws of the edits *)
+Definition bfix_eqb (a b : bfix) : bool :=
+  edit_type_eqb (b_type a) (b_type b) && (b_anchor a =? b_anchor b) && list_eqb str_eqb (b_edits a) (b_edits b).
+
+(** [LintFix::is_just_source_edit] *)
+Definition is_jse (f : bfix) : bool :=
+  match b_type f, b_edits f with
+  | Replace, [r] => str_eqb r (b_anchor_raw f)
+  | _, _ => false
+  end.
+
+Record ainfo := {
+  a_delete : N; a_replace : N; a_create_before : N; a_create_after : N;
+  a_fixes : list bfix; a_first_replace : option N
+}.
+Definition ainfo_empty : ainfo :=
+  {| a_delete := 0; a_replace := 0; a_create_before := 0; a_create_after := 0; a_fixes := []; a_first_replace := None |}.
+
+Definition is_some {A} (o : option A) : bool := match o with Some _ => true | None => false end.
+
+Definition ainfo_add (i : ainfo) (f : bfix) : outcome ainfo :=
+  if existsb (fun g => bfix_eqb g f) (a_fixes i) then Val i
+  else if is_jse f && is_some (a_first_replace i) then Crash site_anchor_info_unimplemented
+  else
+    let fr := if edit_type_eqb (b_type f) Replace && negb (is_some (a_first_replace i))
+              then Some (N.of_nat (length (a_fixes i))) else a_first_replace i in
+    Val {| a_delete := a_delete i + (if edit_type_eqb (b_type f) Delete then 1 else 0);
+           a_replace := a_replace i + (if edit_type_eqb (b_type f) Replace then 1 else 0);
+           a_create_before := a_create_before i + (if edit_type_eqb (b_type f) CreateBefore then 1 else 0);
+           a_create_after := a_create_after i + (if edit_type_eqb (b_type f) CreateAfter then 1 else 0);
+           a_fixes := a_fixes i ++ [f]; a_first_replace := fr |}.
+
+(** the map keyed by anchor id, as an association list *)
+Fixpoint amap_update (m : list (N * ainfo)) (k : N) (f : bfix) : outcome (list (N * ainfo)) :=
+  match m with
+  | [] => bind (ainfo_add ainfo_empty f) (fun i => Val [(k, i)])
+  | (k', i) :: m' =>
+      if k' =? k then bind (ainfo_add i f) (fun i' => Val ((k', i') :: m'))
+      else bind (amap_update m' k f) (fun m'' => Val ((k', i) :: m''))
+  end.
+
+Fixpoint compute_aei (m : list (N * ainfo)) (fs : list bfix) : outcome (list (N * ainfo)) :=
+  match fs with
+  | [] => Val m
+  | f :: fs' => bind (amap_update m (b_anchor f) f) (fun m' => compute_aei m' fs')
   end.
 
 (** * 3. The fix loop of [lint_fix_parsed] (core.rs 242-382) *)
